@@ -30,6 +30,15 @@ COMBINATORS = {
     'std::result::Result::<T, E>::is_ok_and':  ('res', 'Ok', 1, 'use', 'const:false'),
 }
 VIDX = {'None': 0, 'Some': 1, 'Ok': 0, 'Err': 1}
+# closure-less combinators that only re-label the variant: receiver kind, {variant (or bool value): result}
+# result: ('agg', adt kind, variant, payload source) with payload source 'payload' (the receiver's) / 'arg1' / None
+VARIANT_MAPS = {
+    'std::result::Result::<T, E>::ok':     ('res', {'Ok': ('agg', 'opt', 'Some', 'payload'), 'Err': ('agg', 'opt', 'None', None)}),
+    'std::result::Result::<T, E>::err':    ('res', {'Ok': ('agg', 'opt', 'None', None), 'Err': ('agg', 'opt', 'Some', 'payload')}),
+    'std::option::Option::<T>::ok_or':     ('opt', {'Some': ('agg', 'res', 'Ok', 'payload'), 'None': ('agg', 'res', 'Err', 'arg1')}),
+    'core::bool::<impl bool>::then_some':  ('bool', {1: ('agg', 'opt', 'Some', 'arg1'), 0: ('agg', 'opt', 'None', None)}),
+    'std::bool::<impl bool>::then_some':   ('bool', {1: ('agg', 'opt', 'Some', 'arg1'), 0: ('agg', 'opt', 'None', None)}),
+}
 
 
 def _remap(obj, lmap, bmap):
@@ -113,9 +122,22 @@ class Inliner:
                         or self._desugar_pipeline(j, tmp, b, c, chain, origin_of_block))
                 if done:
                     progress = True
+        if any(isinstance(v, dict) and v.get('enum') for v in self.upvar_consts.values()):
+            # a captured field-less enum of known value: every discriminant read of it is that variant's index
+            tmp = Body(j, body.facts)
+            for blk in j['blocks']:
+                for st in blk['stmts']:
+                    if st['k'] == 'assign' and st['rv']['k'] == 'discr':
+                        o = single_origin(trace_operand(tmp, {'k': 'copy', 'pl': st['rv']['pl']}, through_calls=set()))
+                        if o is not None and o.kind == 'param' and o.data == 1 and len(o.proj) == 1 and o.proj[0][0] == 'f':
+                            uc = self.upvar_consts.get(o.proj[0][1])
+                            if isinstance(uc, dict) and uc.get('enum') and uc['enum'].get('vi') is not None:
+                                st['rv'] = _use({'k': 'const', 'ty': 'isize', 's': 'const %d_isize' % uc['enum']['vi'], 'int': uc['enum']['vi']})
         if j['inlined']:
             fold_const_switches(j, body.facts)
             thread_known_variants(j)
+        if thread_reaching_consts(j):
+            j['inlined'].append('flow:reaching-constants')
         v = Body(j, body.facts)
         v.orig_id = body.id
         v.is_view = True
@@ -189,7 +211,47 @@ class Inliner:
         return True
 
     # ---- closure handed to a combinator
+    def _inline_variant_map(self, j, b, c, origin_of_block):
+        """`r.ok()`, `o.ok_or(e)`, `flag.then_some(v)`: a case split that builds the re-labelled value"""
+        spec = VARIANT_MAPS.get(c.callee or '')
+        if spec is None:
+            return False
+        kind, table = spec
+        blk = j['blocks'][b]
+        t = blk['term']
+        span = blk['span']
+        recv = op_place(t['args'][0]) if t['args'] else None
+        if recv is None or _pl is None:
+            return False
+        tgt = {'k': 'goto', 'target': t['target']} if t['target'] is not None else {'k': 'unreachable'}
+        arms = {}
+        for key, (_, okind, ovar, src) in table.items():
+            if src == 'payload':
+                ops = [_mv({'l': recv['l'], 'p': list(recv['p']) + [{'dc': key, 'vi': VIDX[key]}, {'f': 0, 'ty': ''}], 'ty': ''})]
+            elif src == 'arg1':
+                if len(t['args']) < 2:
+                    return False
+                ops = [t['args'][1]]
+            else:
+                ops = []
+            nb = len(j['blocks'])
+            j['blocks'].append({'cleanup': False, 'stmts': [_assign(t['dest'], _agg(OPTION if okind == 'opt' else RESULT, ovar, ops), span)], 'term': dict(tgt), 'span': span})
+            origin_of_block[nb] = origin_of_block.get(b, set())
+            arms[key] = nb
+        if kind == 'bool':
+            blk['term'] = {'k': 'switch', 'discr': t['args'][0], 'dty': 'bool', 'targets': [[0, arms[0]]], 'otherwise': arms[1]}
+        else:
+            dl = len(j['locals'])
+            j['locals'].append({'ty': 'isize', 'mut': True})
+            blk['stmts'].append(_assign(_pl(dl, ty='isize'), {'k': 'discr', 'pl': recv}, span))
+            first, second = ('None', 'Some') if kind == 'opt' else ('Ok', 'Err')
+            blk['term'] = {'k': 'switch', 'discr': _mv(_pl(dl, ty='isize')), 'dty': 'isize', 'targets': [[VIDX[first], arms[first]]], 'otherwise': arms[second]}
+        j['inlined'].append('relabel:' + (c.callee or '').split('::')[-1])
+        return True
+
     def _inline_combinator(self, j, tmp, b, c, chain, origin_of_block):
+        if (c.callee or '') in VARIANT_MAPS:
+            return self._inline_variant_map(j, b, c, origin_of_block)
         spec = COMBINATORS.get(c.callee or '')
         if spec is None:
             return False
@@ -885,6 +947,126 @@ def thread_known_variants(j, max_clones=80, max_len=14):
             break
     return clones
 
+
+
+def thread_reaching_consts(j, max_clones=24):
+    """a switch on a flag / on the discriminant of an Option or Result *variable* whose every definition is a constant
+    (`let mut closing = None; loop { .. closing = Some(idx); break .. } let Some(c) = closing else { .. }`): for each
+    predecessor edge into the switch block on which all reaching definitions agree, the edge is redirected to a copy of
+    the block with the switch resolved.  Pure CFG restructuring (every copy executes the same statements)."""
+    nb = len(j['blocks'])
+    # definitions per local: value = ('v', variant index) / ('c', int) / None (not a constant)
+    defs = {}
+    tainted = set()
+    for b, blk in enumerate(j['blocks']):
+        for i, st in enumerate(blk['stmts']):
+            if st['k'] != 'assign':
+                continue
+            pl, rv = st['pl'], st['rv']
+            if rv['k'] in ('ref', 'addr_of', 'rawptr') and rv['pl']['l'] is not None and not (rv['k'] == 'ref' and not rv.get('mut')):
+                tainted.add(rv['pl']['l'])
+            if pl['p']:
+                tainted.add(pl['l'])
+                continue
+            val = None
+            if rv['k'] == 'agg' and rv.get('agg') == 'adt' and rv.get('adt') in (OPTION, RESULT) and rv.get('variant') in _VI:
+                val = ('v', _VI[rv['variant']])
+            elif rv['k'] == 'use' and rv['op']['k'] == 'const' and rv['op'].get('int') is not None:
+                val = ('c', rv['op']['int'])
+            elif rv['k'] == 'use' and rv['op']['k'] in ('move', 'copy') and _whole(rv['op']['pl']):
+                val = ('via', rv['op']['pl']['l'])       # resolved below: a temporary with a single constant definition
+            defs.setdefault(pl['l'], []).append((b, i, val))
+        t = blk['term']
+        if t['k'] == 'call' and t.get('dest') is not None:
+            defs.setdefault(t['dest']['l'], []).append((b, 'term', None))
+        for a in (t.get('args') or []) if t['k'] == 'call' else []:
+            pass
+    for l, ds in defs.items():
+        for k, (b, i, val) in enumerate(ds):
+            hops = 0
+            while val is not None and val[0] == 'via' and hops < 4:
+                src = defs.get(val[1], [])
+                val = src[0][2] if len(src) == 1 and val[1] not in tainted else None
+                hops += 1
+            if val is not None and val[0] == 'via':
+                val = None
+            ds[k] = (b, i, val)
+    succ = {b: [x for x in _succs(blk['term']) if x is not None] for b, blk in enumerate(j['blocks'])}
+    preds = {}
+    for b, ss in succ.items():
+        for x in ss:
+            preds.setdefault(x, set()).add(b)
+    clones = 0
+    for S in range(nb):
+        blk = j['blocks'][S]
+        if blk['cleanup'] or blk['term']['k'] != 'switch' or clones >= max_clones:
+            continue
+        t = blk['term']
+        d = t['discr'].get('pl') if t['discr']['k'] in ('move', 'copy') else None
+        if not _whole(d):
+            continue
+        X, kind = None, None
+        ddefs = [x for x in defs.get(d['l'], [])]
+        if len(ddefs) == 1 and ddefs[0][0] == S and ddefs[0][1] != 'term':
+            rv = blk['stmts'][ddefs[0][1]]['rv']
+            if rv['k'] == 'discr' and _whole(rv['pl']):
+                X, kind = rv['pl']['l'], 'v'
+            elif rv['k'] == 'use' and rv['op']['k'] in ('move', 'copy') and _whole(rv['op']['pl']):
+                X, kind = rv['op']['pl']['l'], 'c'
+        elif ddefs and all(x[2] is not None and x[2][0] == 'c' for x in ddefs):
+            X, kind = d['l'], 'c'
+        if X is None or X in tainted:
+            continue
+        xd = defs.get(X, [])
+        if len(xd) < 2 or any(v is None or v[0] != kind for _, _, v in xd):
+            continue
+        # X must not be redefined inside S before the read
+        if any(b == S for b, _, _ in xd):
+            continue
+        # reaching definitions of X at the end of every block
+        gen = {}
+        for b, i, v in xd:
+            gen[b] = v[1]          # the last definition in block order wins (stmts are visited in order)
+        OUT = {b: (frozenset([gen[b]]) if b in gen else frozenset()) for b in range(nb)}
+        changed = True
+        while changed:
+            changed = False
+            for b in range(nb):
+                if b in gen:
+                    continue
+                inn = frozenset().union(*[OUT[p] for p in preds.get(b, ())]) if preds.get(b) else frozenset()
+                if inn != OUT[b]:
+                    OUT[b] = inn
+                    changed = True
+        allv = frozenset().union(*[OUT[p] for p in preds.get(S, ())]) if preds.get(S) else frozenset()
+        if len(allv) < 2:
+            continue
+        for P in sorted(preds.get(S, ())):
+            if P == S or len(OUT[P]) != 1 or clones >= max_clones:
+                continue
+            v = next(iter(OUT[P]))
+            hit = [tb for val, tb in t['targets'] if val == v]
+            nxt = hit[0] if hit else t['otherwise']
+            cp = copy.deepcopy(blk)
+            cp['term'] = {'k': 'goto', 'target': nxt}
+            new = len(j['blocks'])
+            j['blocks'].append(cp)
+            bo = j.get('block_origin')
+            if bo is not None and S in bo:
+                bo[new] = bo[S]
+            _retarget(j['blocks'][P]['term'], S, new)
+            clones += 1
+    return clones
+
+
+def _retarget(t, old, new):
+    k = t['k']
+    if k in ('goto', 'drop', 'assert', 'call') and t.get('target') == old:
+        t['target'] = new
+    if k == 'switch':
+        t['targets'] = [[v, (new if tb == old else tb)] for v, tb in t['targets']]
+        if t['otherwise'] == old:
+            t['otherwise'] = new
 
 def fold_const_switches(j, facts):
     """a switch on a local whose only definition is a constant (a helper's flag parameter bound to `true` at the
